@@ -39,7 +39,10 @@ META = {
             "darklua's engine on every pattern x path. Configuration location stream: the tree moved under `project/`, 27 patterns with "
             "and without the `project/` prefix, each as apply and as skip at the top level, on a rule and on both, x configuration "
             "given in memory / `.darklua.json` of the working directory / with_configuration_at `project/.darklua.json5` / "
-            "`project/src/.darklua.json` / `conf/darklua.json` x input `project` / `project/src`. A case is non-trivial when the filters under test select some but not "
+            "`project/src/.darklua.json` / `conf/darklua.json` x input `project` / `project/src`. Configuration edit stream: one "
+            "WorkerTree processes configuration 1 then configuration 2 (exactly one filter added / removed / edited / one pattern "
+            "more or less, at the top level and on each of three rules, two of them without properties), compared with a fresh "
+            "run under configuration 2. A case is non-trivial when the filters under test select some but not "
             "all files; distinct by configuration text",
     "assumptions": ["glob matching (wax) is an oracle in the filter theorems (they hold for every `matches`); the check instantiates "
                     "it with Model/FiltersGlob.v, which models: `/`-separated components, `**` as a whole component (zero or more "
@@ -642,6 +645,13 @@ Definition diag_case (c : N * list bool) : string :=
 
     loc_findings = []
     loc_bad = location_stream(ctx, loc_findings)
+    reuse_findings = []
+    reuse_stream(ctx, reuse_findings)
+    seen_reuse = set()
+    for key, what, rep in reuse_findings:
+        if key not in seen_reuse:
+            seen_reuse.add(key)
+            ctx.violation(what, rep, key=key)
     reported = set()
     for key, what, rep in loc_findings:
         if key.rsplit(":", 1)[0] in reported:
@@ -812,6 +822,81 @@ def location_stream(ctx, findings):
         POOL, POOL_INDEX = saved
 
 
+# ---------------------------------------------------------------------------------------------
+# a configuration edit on a re-used WorkerTree (the watch mode): one filter added / removed / edited
+
+REUSE_RULES = [{"rule": "remove_comments"}, {"rule": "append_text_comment", "text": "r2"}, {"rule": "compute_expression"}]
+REUSE_PATTERNS = ["src/sub/**", "**/a.lua", "src/*.lua", "**/deep/c.lua"]
+
+
+def reuse_stream(ctx, findings):
+    """process with configuration 1, replace the configuration file by configuration 2 (which differs in exactly one
+    filter), tell the same WorkerTree (source_changed) and process again: the files must be those of a fresh
+    darklua_core::process under configuration 2.  Rules 1 and 3 have no property (they are written as a bare name when
+    they have no filter), rule 2 has one."""
+    def cfg(top, flts):
+        c = {"rules": [rule_json(REUSE_RULES[i], flts[i]) for i in range(3)], "generator": "retain_lines"}
+        for key in ("apply_to_files", "skip_files"):
+            if top.get(key) is not None:
+                c[key] = top[key]
+        return json.dumps(c)
+    def place(pos, flt):
+        top = flt if pos == 0 else EMPTY
+        flts = [flt if pos == k + 1 else EMPTY for k in range(3)]
+        return cfg(top, flts)
+    edits = []
+    for pos in range(4):
+        for key in ("apply_to_files", "skip_files"):
+            other = "skip_files" if key == "apply_to_files" else "apply_to_files"
+            for k, p in enumerate(REUSE_PATTERNS):
+                q = REUSE_PATTERNS[(k + 1) % len(REUSE_PATTERNS)]
+                one = {key: p if k % 2 else [p], other: None}
+                two = {key: [q] if k % 2 else q, other: None}
+                both = {key: [p, q], other: None}
+                edits.append(("added", pos, key, place(pos, EMPTY), place(pos, one)))
+                edits.append(("removed", pos, key, place(pos, one), place(pos, EMPTY)))
+                edits.append(("edited", pos, key, place(pos, one), place(pos, two)))
+                edits.append(("pattern added", pos, key, place(pos, one), place(pos, both)))
+                edits.append(("pattern removed", pos, key, place(pos, both), place(pos, two)))
+    the_tree = tree()
+    requests = [{"tree": the_tree}]
+    fresh_index = {}
+    for _, _, _, c1, c2 in edits:
+        for c in (c1, c2):
+            if c not in fresh_index:
+                fresh_index[c] = len(requests)
+                requests.append({"id": len(requests), "config": c, "input": "src", "output": "out"})
+    first_reuse = len(requests)
+    for _, _, _, c1, c2 in edits:
+        requests.append({"id": len(requests), "config": c1, "config2": c2, "input": "src", "output": "out"})
+    answers = talk(requests)
+    differing = 0
+    for k, (kind, pos, key, c1, c2) in enumerate(edits):
+        reused, fresh, before = answers[first_reuse + k], answers[fresh_index[c2]], answers[fresh_index[c1]]
+        if fresh["files"] != before["files"]:
+            differing += 1
+        if reused["ok"] == fresh["ok"] and reused["files"] == fresh["files"]:
+            continue
+        level = "top-level" if pos == 0 else "rule"
+        wrong = sorted(f for f in set(reused["files"]) | set(fresh["files"]) if reused["files"].get(f) != fresh["files"].get(f))
+        stale_rejected = level == "top-level" and reused["ok"] and all(
+            f not in fresh["files"] and reused["files"].get(f) == before["files"].get(f) for f in wrong)
+        if stale_rejected:
+            fkey = "reuse:top-level:newly-rejected-file-keeps-previous-output"
+        else:
+            fkey = "reuse:%s:%s:%s" % (level, kind.replace(" ", "-"), key)
+        findings.append((fkey, "after the configuration edit (%s %s, %s) the re-used WorkerTree leaves files that differ from a "
+                         "fresh run with the new configuration: %s" % (level, key, kind, ", ".join(wrong[:4])),
+                         {"config": c1, "config2": c2, "input": "src", "output": "out", "files_differing": wrong,
+                          "reused": {f: reused["files"].get(f) for f in wrong[:3]},
+                          "fresh": {f: fresh["files"].get(f) for f in wrong[:3]}, "tree": "vlib/c20.py tree()",
+                          "replay": "process(config); write config2; tree.source_changed(.darklua.json); tree.process(...)"}))
+    ctx.stream("configuration edit on a re-used WorkerTree (one filter added / removed / edited, top level and each rule, rules "
+               "with and without properties) == fresh process() with the second configuration",
+               len(edits) * len(SOURCES), differing, [{"first": edits[5][3], "second": edits[5][4]}],
+               findings=sum(1 for _ in findings), edits=len(edits), fresh_runs=len(fresh_index))
+
+
 def replay(ctx, path):
     r = json.load(open(path))
     print(json.dumps(r, indent=1))
@@ -819,6 +904,9 @@ def replay(ctx, path):
     if "config" in rep and "ruleset" in rep:
         C.build_harness("dl-c20")
         _, _, inp, outp = RULESETS[rep["ruleset"]]
-        ans = talk([{"tree": tree()}, {"id": 0, "config": rep["config"], "input": inp, "output": outp}])[1]
+        job = {"id": 0, "config": rep["config"], "input": rep.get("input", inp), "output": rep.get("output", outp)}
+        if "config2" in rep:
+            job["config2"] = rep["config2"]
+        ans = talk([{"tree": tree()}, job])[1]
         print(json.dumps(ans, indent=1))
     return 0
